@@ -79,7 +79,7 @@ def _make_config_parser(cfg_file, overrides, additional, remove, species, exclud
 
   cp = ConfigParser(cfg_file, overrides = overrides_list, additional= additional_list)
 
-  if species:
+  if not species is None:
     if exclude_flag:
       cp = FilteredConfigParser(cp, exclude = species)
     else:
@@ -93,7 +93,8 @@ def _do_tabulation(p, args):
   logger = logging.getLogger(__name__).getChild("main")
   species_list = None
   exclude_flag = False
-  if args.include_species:
+  if not args.include_species is None:
+    # (--include-species given without any label keeps nothing)
     species_list = args.include_species
   elif args.exclude_species:
     species_list = args.exclude_species
